@@ -103,28 +103,48 @@ class Env:
         self.horizon = horizon
         self.injected: list = []  # (step, action, virtual time, socket index, fsm state before)
         self.step = 0
+        self.multi = False  # several neighbors: the well-behaved remote answers on every connection
+        self.remote_by_address: dict = {}  # peer address -> Remote keyword overrides (asn, router_id)
 
     # -- state inspection ------------------------------------------------------------------------
+    def peer(self):
+        """The neighbor under observation (with several neighbors: the one named by self.primary, None once removed)."""
+        primary = getattr(self, 'primary', None)
+        if not self.multi or primary is None:
+            return self.w.peer()
+        for p in self.w.peers_map().values():
+            if p.neighbor.session.peer_address.top() == primary:
+                return p
+        return None
+
     def live_sockets(self):
         return [s for s in self.w.sockets if not s.closed]
 
     def current(self):
         """The socket the peer currently owns (or the newest live one)."""
-        p = self.w.peer()
+        p = self.peer()
         if p is not None and p.proto and p.proto.connection and p.proto.connection.io is not None:
             return p.proto.connection.io
         live = self.live_sockets()
+        if self.multi and p is not None:
+            # the newest live connection of the first neighbor, not one of another neighbor
+            addr = p.neighbor.session.peer_address.top()
+            live = [s for s in live if s.remote[0] == addr]
+        elif self.multi:
+            live = [s for s in live if s.remote[0] == getattr(self, 'primary', None)]
         return live[-1] if live else None
 
     def remote(self, sock) -> Remote:
         r = self.remotes.get(sock.index)
         if r is None:
-            r = Remote(self.w, sock, hold=self.hold, families=((1, 1), (2, 1)), **self.remote_opts)
+            opts = dict(self.remote_opts)
+            opts.update(self.remote_by_address.get(sock.remote[0], {}))
+            r = Remote(self.w, sock, hold=self.hold, families=((1, 1), (2, 1)), **opts)
             self.remotes[sock.index] = r
         return r
 
     def fsm(self) -> str:
-        p = self.w.peer()
+        p = self.peer()
         return p.fsm.name() if p is not None else 'NONE'
 
     # -- default action ----------------------------------------------------------------------------
@@ -132,16 +152,20 @@ class Env:
         for s in self.live_sockets():
             if s.kind == 'out' and not s.connected and s._connect_waiter is not None and not s._connect_waiter.done():
                 return f'connect-ok:{s.index}'
-        s = self.current()
-        if s is not None and s.connected:
+        if self.multi:
+            candidates = [x for x in self.live_sockets() if x.connected]
+        else:
+            cur = self.current()
+            candidates = [cur] if cur is not None and cur.connected else []
+        for s in candidates:
             r = self.remote(s)
             types = r.received_types()
             if wire.OPEN in types and s.index not in self.sent_open:
                 return f'open:{s.index}'
             if wire.KEEPALIVE in types and s.index in self.sent_open and s.index not in self.sent_ka:
                 return f'keepalive:{s.index}'
-            if self.fsm() == 'ESTABLISHED' and self.script_pos < len(self.script):
-                return f'script:{self.script_pos}'
+        if candidates and self.fsm() == 'ESTABLISHED' and self.script_pos < len(self.script):
+            return f'script:{self.script_pos}'
         return 'time'
 
     def menu(self) -> list[str]:
@@ -153,7 +177,8 @@ class Env:
         w = self.w
         name, _, arg = action.partition(':')
         cur = self.current()
-        self.injected.append((self.step, action, round(w.clock.now - EPOCH, 3), cur.index if cur else None, self.fsm()))
+        target = int(arg) if name in ('connect-ok', 'connect-refused', 'open', 'keepalive') and arg.isdigit() else (cur.index if cur else None)
+        self.injected.append((self.step, action, round(w.clock.now - EPOCH, 3), target, self.fsm()))
         if name == 'connect-ok':
             s = w.sockets[int(arg)]
             s.connect_result = True
@@ -213,12 +238,20 @@ class Env:
             s = self.current()
             if s is not None and s.index in self.sent_ka and self.hold:
                 ka_due = self.last_remote_tx.get(s.index, w.clock.now) + self.hold / 3.0
-            cands = [t for t in (nd, ka_due, target) if t is not None]
+            others = []
+            if self.multi and self.hold:
+                others = [(self.last_remote_tx.get(x.index, w.clock.now) + self.hold / 3.0, x) for x in self.live_sockets()
+                          if x is not s and x.index in self.sent_ka and not getattr(self, 'hold_silenced', False)]
+            cands = [t for t in (nd, ka_due, target) if t is not None] + [t for t, _ in others]
             nxt = min(cands)
             w.clock.now = max(w.clock.now, nxt)
             if ka_due is not None and w.clock.now >= ka_due and s is not None and not s.closed:
                 self.remote(s).send_keepalive()
                 self.last_remote_tx[s.index] = w.clock.now
+            for due, x in others:
+                if w.clock.now >= due and not x.closed:
+                    self.remote(x).send_keepalive()
+                    self.last_remote_tx[x.index] = w.clock.now
             w.settle()
             if self.default_action() != 'time':
                 break
@@ -278,7 +311,7 @@ def summarize(w: World, env: Env) -> dict:
             per.append((round(when - EPOCH, 3), st, mtype, body.hex()))
             off += 19 + len(body)
         socks.append({
-            'index': s.index, 'kind': s.kind, 'connected': s.connected, 'closed': s.closed,
+            'index': s.index, 'kind': s.kind, 'remote': s.remote[0], 'connected': s.connected, 'closed': s.closed,
             'closed_at': None if s.closed_at is None else round(s.closed_at - EPOCH, 3),
             'tx': per, 'tx_err': err, 'tx_rest': len(rest), 'rx_left': len(s.rx), 'consumed': s.consumed, 'accepted': s.accepted,
         })
